@@ -44,18 +44,26 @@ pub fn dest_strategy() -> impl Strategy<Value = ([u8; 4], u16)> {
 }
 
 pub fn strategy() -> impl Strategy<Value = Case> {
-    (prop::option::weighted(0.85, gen::gdoc()), gen::gclaims(), gen::gurl(), gen::bind(), dest_strategy(), prop::bool::weighted(0.6)).prop_map(
-        |(doc, claims, url, bind, (ip, port), force_unelevated)| {
-            let (url, mut claims) = match &doc {
-                Some(d) => gen::apply_bind(d, &url, &claims, &bind),
-                None => (url, claims),
-            };
-            if force_unelevated {
-                claims.elevated = false;
-            }
-            Case { doc, claims, url, ip, port }
-        },
-    )
+    (prop::option::weighted(0.85, gen::gdoc()), gen::gclaims(), gen::gurl(), gen::bind(), dest_strategy(), prop::bool::weighted(0.6)).prop_map(make_case)
+}
+
+fn make_case((doc, claims, url, bind, (ip, port), force_unelevated): (Option<GDoc>, GClaims, GUrl, gen::Bind, ([u8; 4], u16), bool)) -> Case {
+    let (url, mut claims) = match &doc {
+        Some(d) => gen::apply_bind(d, &url, &claims, &bind),
+        None => (url, claims),
+    };
+    if force_unelevated {
+        claims.elevated = false;
+    }
+    Case { doc, claims, url, ip, port }
+}
+
+/// the same case space, addressed by the words of a fuzz input (see `crate::words`)
+pub fn case_from_words(w: &mut crate::words::Words) -> Case {
+    use crate::words::draw;
+    let h = w.next();
+    let doc = if h % 7 == 0 { None } else { Some(gen::gdoc_from_words(w)) };
+    make_case((doc, draw(&gen::gclaims(), w.next()), draw(&gen::gurl(), w.next()), draw(&gen::bind(), w.next()), draw(&dest_strategy(), w.next()), (h >> 8) % 5 < 3))
 }
 
 pub const RULE: &str = "generator: optional C02 rule document (all modes/defaults, including ones granting the caller) x claims (60% forced non-elevated; URL and claims mostly bound to the document so that the rules would grant) x URL x destination (ip, port) concentrated on the three protected endpoints, the proxy's own address and near misses (port +/- 1, byte-swapped, neighbouring ip). oracle: reference authorizer table; non-elevated caller to WireServer/HostGAPlugin and any caller to 127.0.0.1:3080 must be Forbidden. non-trivial: (non-elevated caller to WireServer/HostGAPlugin where the same caller elevated would be relayed by the rules, or the rule set is disabled/audit/absent) or a self-destination case with a rule set present; distinct by hash of the whole case.";
